@@ -15,7 +15,33 @@ ASSUMPTIONS = ["a command is what executor.launch_command is asked to run; hash 
 
 
 def gen_scenario(seed, tier="quick", opts=None):
+    import random
+
+    from sim.chooser import derive_seed
+
     sc = _mon.gen_monitored(seed, tier, opts, always=("resources", "hold"), never=("bad",), fault_kinds=("kill_step",))
+    rng = random.Random(derive_seed(seed, "c12"))
+    # A plan that fails late, after the steps it declared have started: with --keep-going the
+    # build goes on, its running children are detached but still hold their resource units.
+    if rng.random() < 0.35:
+        k = rng.randrange(len(sc["phases"]))
+        proj = sc["phases"][k]["project"]
+        owners = sorted({st["plan"] for st in proj["steps"] if st["resources"]})
+        if owners:
+            name = rng.choice(owners)
+            plan = next(p for p in proj["plans"] if p["name"] == name)
+            plan.setdefault("extra_ops", []).extend([["sleep", rng.choice([0.1, 0.4, 1.0])], ["exit", 1]])
+            sc["phases"][k]["cfg"]["keep_going"] = True
+            sc["phases"][k]["edits"] = list(sc["phases"][k]["edits"]) + [f"plan {name} fails late"]
+            # more steps that compete for the same resource, declared by another plan
+            others = [p for p in proj["plans"] if p["name"] != name]
+            res_names = sorted({r for st in proj["steps"] if st["plan"] == name for r in st["resources"]})
+            if others and res_names:
+                other = rng.choice(others)
+                for j in range(rng.randint(1, 2)):
+                    other.setdefault("extra_ops", []).append(
+                        ["step", f"RX{j} s=0.3 w=rx{k}_{j}.txt", {"out": [f"rx{k}_{j}.txt"], "resources": {res_names[0]: rng.randint(1, 2)}}]
+                    )
     sc["check"] = PROPERTY
     return sc
 
